@@ -357,7 +357,7 @@ def check_expand_wrappers(cx: Cx, ob: Ob) -> None:
         found = True
         ob.site(f"{where(fn, line)} {fn.qualname}", f"return {show(t)[:60]}")
         if not self_call(t, me, "expand_reference"):
-            ob.violate(fn.qualname, where(fn, line), f"expand returns `{show(t)[:70]}`, not expand_reference(parse_curie(curie))", detail="callee")
+            ob.funnel(fn.qualname, where(fn, line), f"expand returns `{show(t)[:70]}`, not expand_reference(parse_curie(curie))", any(self_call(x, me, "expand_reference") for x, _ in s.returns()), "expand_reference")
             continue
         R = t[2][0] if t[2] else None
         if not (self_call(R, me, "parse_curie") and R[2][:1] == (("param", "curie"),)):
@@ -375,7 +375,7 @@ def check_expand_wrappers(cx: Cx, ob: Ob) -> None:
         line = ctx.path.out[2] if ctx.path.out else fn.node.lineno
         ob.site(f"{where(fn, line)} {fn.qualname}", f"return {show(t)[:60]}")
         if not self_call(t, me, "expand_reference"):
-            ob.violate(fn.qualname, where(fn, line), f"expand_pair returns `{show(t)[:70]}`, not expand_reference(...)", detail="callee")
+            ob.funnel(fn.qualname, where(fn, line), f"expand_pair returns `{show(t)[:70]}`, not expand_reference(...)", any(self_call(x, me, "expand_reference") for x, _ in s.returns()), "expand_reference")
             continue
         pa = reftuple_args(t[2][0]) if t[2] else None
         if pa != (("param", "prefix"), ("param", "identifier")):
@@ -393,7 +393,7 @@ def check_expand_wrappers(cx: Cx, ob: Ob) -> None:
         line = ctx.path.out[2]
         ob.site(f"{where(fn, line)} {fn.qualname}", f"return {show(t)[:60]}")
         if not self_call(t, me, "expand_pair_all") or len(t[2]) != 2:
-            ob.violate(fn.qualname, where(fn, line), f"expand_all returns `{show(t)[:70]}`, not expand_pair_all(prefix, identifier)", detail="callee")
+            ob.funnel(fn.qualname, where(fn, line), f"expand_all returns `{show(t)[:70]}`, not expand_pair_all(prefix, identifier)", any(self_call(x, me, "expand_pair_all") for x, _ in s.returns()), "expand_pair_all")
             continue
         ca, cb = component(t[2][0]), component(t[2][1])
         if not (ca and cb and ca[1] == 0 and cb[1] == 1 and ca[0] == cb[0] and self_call(ca[0], me, "parse_curie") and ca[0][2][:1] == (("param", "curie"),)):
@@ -492,7 +492,11 @@ def check_expand_pair_all(cx: Cx, ob: Ob) -> None:
             ob.violate(fn.qualname, where(fn, line), "canonical and synonym expansions come from different records", detail="cross-record")
             continue
         r = next(iter(recs))
-        if not (self_call(r, me, "get_record") and r[2][:1] == (("param", "prefix"),)):
+        if (op(r) == "call" and not self_call(r, me, "get_record") and (self_call(r, me) or op(r[1]) == "func")) or any(op(x) in ("phi", "unk") for x in subterms(r)):
+            # another lookup helper (an index, a binary search): whether it finds the record get_record finds is
+            # a question about that helper, which this rule does not answer
+            ob.undecide(f"expand_pair_all takes its record from `{show(r)[:60]}`, not from get_record(prefix): that this finds the same record is not decided")
+        elif not (self_call(r, me, "get_record") and r[2][:1] == (("param", "prefix"),)):
             ob.violate(fn.qualname, where(fn, line), f"record is `{show(r)[:60]}`, not self.get_record(prefix)", detail="record-source")
     if not found:
         ob.undecide("expand_pair_all has no success return")
